@@ -426,6 +426,14 @@ def bd10(prog, rr):
             rr.finding(f, c, "VariableBoundScalarModel.__init__", "BD10: the upper end of the %s base domain is %s (no `- 1`): the inclusive range reaches one past the "
                        "largest value of the type, and unconstrained fields are drawn from this range without masking - a signed field can be set to "
                        "+2^(w-1)" % ("signed" if signed else "unsigned", hi), text="upper end of base domain")
+        if signed:
+            import copy
+            lo_n = ast.parse(lo, mode="eval").body
+            neg = lo_n.operand if isinstance(lo_n, ast.UnaryOp) and isinstance(lo_n.op, ast.USub) else None
+            if neg is not None and isinstance(neg, ast.BinOp) and isinstance(neg.op, ast.Sub) and isinstance(neg.right, ast.Constant) and neg.right.value == 1:
+                rr.finding(f, c, "VariableBoundScalarModel.__init__", "BD10: the lower end of the signed base domain is %s = -(2^(w-1) - 1): the most negative value of "
+                           "the type is outside the domain, so it is never drawn for an unconstrained field and never targeted by the swizzler" % lo,
+                           text="symmetric signed base domain")
         if signed and not lo.replace(" ", "").startswith("-"):
             rr.finding(f, c, "VariableBoundScalarModel.__init__", "BD10: the lower end of the signed base domain is %s" % lo, text="lower end of base domain")
 
